@@ -218,6 +218,10 @@ func c10Scenarios(tier string) []engine.Scenario {
 					a = append(a, simple("put(B1,csrf)", func(s *world.Stack) world.Req { return flows.Put(b, "csrf", "tok") }))
 					a = append(a, flows.Restart(b))
 					a = append(a, simple("open(B1)", func(s *world.Stack) world.Req { return flows.Open(b) }))
+					if len(w.DB.Tokens[U1]) > 0 {
+						// the account's remember tokens are revoked elsewhere (a password change from another device): the cookie stays behind
+						a = append(a, flows.Env("admin-revoke-remember-tokens(u1)", func(s *world.Stack, w *world.World) { delete(w.DB.Tokens, U1); w.Truth.Kill("rm", U1, "revoked") }))
+					}
 					if useExpire {
 						a = append(a, flows.Advance(2*time.Minute))
 					}
